@@ -142,7 +142,7 @@ def run_history(req):
             bad.append("drain-extremal")
         del queued[r]
         done.append(r)
-    if sorted(done) != sorted(inserted) or len(set(done)) != len(done):
+    if sorted(done) != sorted(inserted):
         bad.append("exactly-once")
     return dict(obs=dict(done=done), violated=bad)
 
